@@ -22,7 +22,7 @@ var verifCountParams = map[string]uint64{"iovs_len": 8, "nsubscriptions": 48, "p
 // run-time panic is a violation -, allocates no more than 16x the memory size + 1 MiB, and leaves the descriptor
 // table consistent. Loop counts are either <= 2 or larger than what fits in the memory (the range in between needs more
 // unwinding and is outside the claim).
-//verif:opts split=fn:46 unwind=24 maxpaths=30000 wall=600
+//verif:opts split=fn:46 unwind=24 maxpaths=30000/200000 wall=600/3000
 func VerifC15_AnyArgs() {
 	hf := verifWasiFuncs[verifrt.Choose("fn", len(verifWasiFuncs))]
 	mod, size := verifWasiModule(&verifNondetFS{})
